@@ -70,7 +70,31 @@ class ExtractError(Exception):
 
 # ------------------------------------------------------------------ constants
 def gen_consts(repo):
+    """constants (ast extractor below) + translation of the whole module (c20_translate / harness/lib/pytranslate.py).  The
+    translation of THIS source (or the stub saying why there is none) is written even when the constant extractor refuses
+    the source; any refusal is raised (= proof step broken)."""
     src = open(os.path.join(repo, "ak", "short_uuid.py")).read()
+    try:
+        translated, terr = c20_translate.translate(src), None
+    except c20_translate.Unsupported as e:
+        translated, terr = c20_translate.stub(str(e)), e
+    from harness.lib import coqrun
+    try:
+        gens = _gen_consts_only(src)
+    except Exception:
+        with coqrun.Lock():
+            coqrun.write_gen("C20_Translated", translated)
+        raise
+    gens["C20_Translated"] = translated
+    if terr is not None:
+        with coqrun.Lock():
+            for name, text in gens.items():
+                coqrun.write_gen(name, text)
+        raise ExtractError(f"translator (harness/props/c20_translate.py -> harness/lib/pytranslate.py): {terr}")
+    return gens
+
+
+def _gen_consts_only(src):
     tree = ast.parse(src)
     alphabet = None
     short_len = None
@@ -122,19 +146,7 @@ def gen_consts(repo):
             f"Definition alphabet : list Z := {SX.cZlist(ord(c) for c in alphabet)}.\n"
             f"Definition short_len : nat := {short_len}%nat.\n"
             f"Definition caught : list err := [{'; '.join(emap[c] for c in caught)}].\n")
-    # the whole module, translated statement by statement (fail closed: raises outside the supported subset);
-    # coq/C20/TransEq.v proves the translated functions equal to the hand model, Run.v evaluates both
-    try:
-        translated = c20_translate.translate(src)
-    except c20_translate.Unsupported as e:
-        # leave a defined state behind (not the translation of whatever text the previous run saw): the constants of
-        # THIS source and a stub translation that fails TransEq.translation_is_available; then report the break
-        from harness.lib import coqrun
-        with coqrun.Lock():
-            coqrun.write_gen("C20_Consts", text)
-            coqrun.write_gen("C20_Translated", c20_translate.stub(str(e)))
-        raise ExtractError(f"translator (harness/props/c20_translate.py): {e}")
-    return {"C20_Consts": text, "C20_Translated": translated}
+    return {"C20_Consts": text}
 
 
 # ------------------------------------------------------------------ cases
